@@ -93,7 +93,7 @@ def build():
     let ghost csr0 = csr;
     proof {
         // the CSR is for the key pair just obtained, which is the key in the key file
-        assert(csr0.key@ == key_pair.id@ && w.disk_key == Some(key_pair.id@)); //@C01.csr_key_is_the_key_in_the_key_file
+        assert(csr0.key@ == key_pair.id@ && w.disk_key == Some(key_pair.id@)); //@C01.csr_key_is_the_key_in_the_key_file,C02.key_file_holds_the_key_of_the_csr,C03.key_file_holds_the_key_of_the_csr
         assert(csr0.dns@ == values_spec(cert.identifiers@, IdentifierType::Dns) && csr0.ip@ == values_spec(cert.identifiers@, IdentifierType::Ip)); //@C01.csr_san_is_the_configured_identifiers
     }"""),
             ("after_stmt", "let csr = csr.to_string();", 1, """
